@@ -2,7 +2,9 @@ STD_NOTE = ("Trusted: Coq 8.16.1 kernel (vm_compute, no native_compute); stdlib 
             "(ClassicalDedekindReals.sig_forall_dec, FunctionalExtensionality.functional_extensionality_dep) as printed by "
             "Print Assumptions in the evidence; exact-arithmetic idealisation (rounding is outside the theorems, bounded only by the "
             "tolerance of the correspondence run); numerical kernels (LAPACK etc.) are oracles characterised by hypotheses; the model is "
-            "hand-written and tied to /repo only by the correspondence run (generators, tolerances and NumPy reference oracles are trusted for that).")
+            "hand-written and tied to /repo by the correspondence run (generators, tolerances and NumPy reference oracles are trusted for that); "
+            "where a TRANSLATED definition is named (coq/Gen/*.v, regenerated from /repo's source text on every run by the fail-closed ast "
+            "translators of harness/reflect.py, which are then part of the trusted base), a lemma proves it equal to the model.")
 
 CHECKS = [
  {"id": "C01",
@@ -11,7 +13,7 @@ CHECKS = [
           "fraction rule keeps the smallest leading set reaching p; post-processing of the FPCA callers keeps order/pairing. "
           "Tie: _compute_eigen, UFPCA and MFPCA (both methods) vs the executable model on generated matrices/datasets incl. every "
           "permutation of small spectra. Open finding F1 (helper does not sort; suite pins it) is recognised by exact agreement with the "
-          "defect model compute_eigen_nosort, whose surviving laws (non-negativity, prefix) are proved and whose failure is proved (…_refuted).",
+          "defect model compute_eigen_nosort, whose surviving laws (non-negativity, prefix) are proved and whose failure is proved (…_refuted). The selection rule _select_number_eigencomponents is also TRANSLATED from the source on every run (Gen/Select.v), proved equal to the model's npc (C01_source_selection_rule) and executed in Q against the function.",
   "note": STD_NOTE},
  {"id": "C02",
   "text": "Theorems (w = trapezoid weights, s their non-zero square roots, C any covariance surface, (lambda,u) any output of the eigen-solver for "
@@ -21,7 +23,7 @@ CHECKS = [
           "<phi_j,phi_k> = l_k (v_j.v_k)/(r_j r_k), hence mutual orthogonality and unit norm when r^2 = l. Tie: the implementation's "
           "eigenvalues / eigenfunctions / covariance / Gram eigenvectors are fed to these relations evaluated exactly in Q, and compared up to sign "
           "with the model's back-transform of an independent eigh. Open finding F1b (null-space eigenfunctions from np.linalg.eig not orthonormal "
-          "for n_components=None on rank-deficient data) recognised through a weaker defect certificate.",
+          "for n_components=None on rank-deficient data) recognised through a weaker defect certificate. The trapezoid weights UFPCA uses are also TRANSLATED from the source (_integration_weights, Gen/TrapzWeights.v): orthonormality and the eigen-equation are restated on them (C02_cov_orthonormal_source_weights).",
   "note": STD_NOTE},
  {"id": "C03",
   "text": "Theorems: with the eigen-equation of the (n-1) sample covariance of the prepared curves, NumInt score cross-products are "
@@ -98,7 +100,7 @@ CHECKS = [
           "the code builds it (upper triangle, symmetrise, halve diagonal) equals the matrix of inner products, is symmetric, has squared norms "
           "on its diagonal, its quadratic form is the squared norm of the combination (PSD), rows sum to zero for centred curves, re-indexing "
           "equivariance, sums of PSD component matrices are PSD. Tie: _integration_weights, _integrate (1-D/2-D/3-D), _inner_product, "
-          "DenseFunctionalData.norm/inner_product evaluated against the exact Q model; Simpson's rule (scipy's composite rule for unequal spacings, Model/Simpson.v): linear, exact for quadratics on every strictly increasing grid with >= 3 points, factorises over product grids; _integrate(method='simpson') compared exactly with the model in 1-D and 2-D; monitors for multivariate and basis data.",
+          "DenseFunctionalData.norm/inner_product evaluated against the exact Q model; Simpson's rule (scipy's composite rule for unequal spacings, Model/Simpson.v): linear, exact for quadratics on every strictly increasing grid with >= 3 points, factorises over product grids; _integrate(method='simpson') compared exactly with the model in 1-D and 2-D; monitors for multivariate and basis data. _integration_weights(method='trapz') is also TRANSLATED from the source on every run (Gen/TrapzWeights.v), proved equal to trapz_w (C08_source_trapz_weights) and executed in Q against the function.",
   "note": STD_NOTE + " Basis-expansion Gram matrices are monitored, not modelled."},
  {"id": "C09",
   "text": "Theorems (all datasets of n rows on m points): the mean is the pointwise average and is invariant under permutation of the "
@@ -107,7 +109,7 @@ CHECKS = [
           "noise estimate is >= 0, scales with a^2, is 0 for curves shorter than the sequence, and under an additive constant c changes by the "
           "exact amount 2c(sum d)avg(d.w)+c^2(sum d)^2, with |sum d|<=2e-4, |sum d^2-1|<=1e-3 proved for the ten difference sequences REFLECTED "
           "from the source on every run. Tie: .mean(), .covariance(), .noise_variance(order 1..10), _estimate_noise_variance vs the exact Q "
-          "model; monitors for permutation invariance of the covariance, LP/PS-smoothed covariances (symmetry, support), per-curve averaging.",
+          "model; monitors for permutation invariance of the covariance, LP/PS-smoothed covariances (symmetry, support), per-curve averaging. _estimate_noise_variance is also TRANSLATED from the source on every run (Gen/NoiseVar.v, with the reflected difference sequences of Gen/Consts.v): C09_source_noise_estimator states rejection of orders outside 1..10, non-negativity, the square law and zero for short curves on the translated code; executed in Q against the function.",
   "note": STD_NOTE + " The covariance entries are also characterised as sums over the centred observations and proved invariant "
           "under permutation of the observations (C09_cov_entry_rows, C09_cov_perm)."},
  {"id": "C10",
